@@ -70,7 +70,13 @@ ASSUMPTIONS = [
 TOL_OWN = 1e-7      # quantities read from the object's logpdf by exact differences
 TOL_REG = 1e-5      # eps-regularised GMRF constructions
 NS = (1, 2, 3)
-PATHS = ("rng", "global")
+# how the random source is handed over: rng= keyword / positional second argument / nothing (global numpy)
+PATHS = ("rng", "rng-pos", "global")
+HANDOVER = "rng-handover"      # operation name of every verdict about a call form other than ``sample(N, rng=r)``
+# call forms with a real generator r (engine D): sample(N, rng=r) / sample(N, r) / sample(N=N, rng=r) / sample(rng=r) [N=1]
+CALL_FORMS = ("rng", "rng-pos", "rng-Nkw", "rng-noN")
+DIFFERENTIAL_FORMS = ("rng-pos", "rng-Nkw", "rng-noN")
+FORM_TEXT = {"rng": "sample(N, rng=r)", "rng-pos": "sample(N, r)", "rng-Nkw": "sample(N=N, rng=r)", "rng-noN": "sample(rng=r)"}
 
 
 # =========================================================================================
@@ -111,6 +117,10 @@ class _Agg:
             extra = []
             for ax, allv in self._universe(op).items():
                 seen = sorted({w[ax] for w, _, _ in lst if ax in w}, key=str)
+                if ax == "path":
+                    # the call forms other than sample(N, rng=r) are decided differentially (operation 'rng-handover'):
+                    # they are not part of the universe of an operation that was only evaluated on the keyword / global forms
+                    allv = set(allv) - (set(DIFFERENTIAL_FORMS) - set(seen))
                 if not seen or len(allv) <= 1 or set(seen) >= set(allv):
                     continue
                 if ax == "N":
@@ -228,11 +238,11 @@ def _run_normal_script(dist, N, path, xi=None):
         pos[0] += n
         return v
     s = Stream(normal=answer)
-    if path == "rng":
+    if path in ("rng", "rng-pos"):
         guard = Stream()          # every global numpy.random function raises while an rng is given
         try:
             with guard.installed():
-                out = dist.sample(N, rng=s.rng())
+                out = dist.sample(N, rng=s.rng()) if path == "rng" else dist.sample(N, s.rng())
         except UnownedRandomness as e:
             raise _RngIgnored(str(e))
     else:
@@ -266,6 +276,56 @@ def _affine_law(dist, N, path, post=None):
         return {"problem": str(e)}
     v = np.array([(-1) ** i * (0.5 + 0.25 * (i % 7)) for i in range(n)])
     return {"offset": z0, "T": T, "n": n, "requests": reqs, "executions": n + 2 + 1, "probe": (v, draw(v))}
+
+
+def _handover_affine(res, agg, fam, dist, N, where, kw_law, post):
+    """The generator handed over as positional second argument, ``sample(N, rng)``: same owned stream -> the very same
+    requests and the very same draws as ``sample(N, rng=rng)``; no global numpy function may be touched.
+    kw_law: the law identified for the keyword form (None when that form gave no usable draw: then only the
+    discipline part is decided)."""
+    dim = dist.dim
+    runs = []
+    v = kw_law["probe"][0] if kw_law is not None else None
+    for xi in ((None,) if kw_law is None else (None, v)):
+        try:
+            out, s = _run_normal_script(dist, N, "rng-pos", xi)
+        except _RngIgnored as e:
+            agg.add(fam, HANDOVER, "", where, "global numpy.random was used although a generator was passed as "
+                    "positional second argument of sample(): %s" % e)
+            res.outcomes.add("positional-rng-ignored")
+            return
+        except HarnessError as e:
+            if kw_law is None:
+                raise
+            agg.add(fam, HANDOVER, "", where, "sample(N, rng) does not consume the generator like sample(N, rng=rng): %s" % e)
+            return
+        except Exception as e:
+            res.transitions += 1
+            res.refused += 1
+            res.outcomes.add("positional-refused:%s" % type(e).__name__)
+            if kw_law is not None and not isinstance(e, (TypeError, NotImplementedError)):
+                agg.add(fam, "sample-raises", "", where, "sample(%d, rng) raised %r although sample(%d, rng=rng) draws" % (N, e, N))
+            return
+        res.transitions += 1
+        if kw_law is None:
+            res.outcomes.add("positional-discipline-only")
+            return
+        prob = _wrap_problem(out, N, dist)
+        reqs = [(r.get("fn"), tuple(r["shape"])) for r in s.log]
+        if prob or reqs != kw_law["requests"]:
+            agg.add(fam, HANDOVER, "", where, "sample(N, rng) %s; sample(N, rng=rng) gives a well-formed draw from the requests %s"
+                    % (prob or "asks the generator for %s" % (reqs,), kw_law["requests"]))
+            return
+        m = _matrix(out, N, dim)
+        runs.append((post(m) if post else m).ravel())
+    res.evaluations += 2
+    same0 = np.array_equal(runs[0], kw_law["offset"], equal_nan=True)
+    same1 = np.array_equal(runs[1], kw_law["probe"][1], equal_nan=True)
+    if not (same0 and same1):
+        agg.add(fam, HANDOVER, "", where, "the same generator answers give different draws through sample(N, rng) and "
+                "sample(N, rng=rng)", positional=runs[1][:6], keyword=kw_law["probe"][1][:6])
+        return
+    res.outcomes.add("positional==keyword:N=%d" % N)
 
 
 def _own_density(res, logf, dim):
@@ -331,10 +391,14 @@ def _check_affine_family(res, agg, fam, facet, dist, logf, mean_kind, ref=None, 
         if ref.get("prec") is not None:
             match = [0] if close(imp["prec"], ref["prec"], 1e-6) else []
         res.count("density-vs-reference:" + ("neither" if not match else "/".join(ref["names"][i] for i in match)))
+    kw_law = {}
     for N in ns:
         for path in paths:
             where = {"mean": mean_kind, "N": N, "path": path}
             res.state("%s/N=%d/%s" % (mean_kind, N, path))
+            if path == "rng-pos":
+                _handover_affine(res, agg, fam, dist, N, where, kw_law.get(N), post)
+                continue
             try:
                 law = _affine_law(dist, N, path, post)
             except _RngIgnored as e:
@@ -361,6 +425,8 @@ def _check_affine_family(res, agg, fam, facet, dist, logf, mean_kind, ref=None, 
                 continue
             res.transitions += law["executions"]
             res.traces += 1
+            if path == "rng":
+                kw_law[N] = law
             # linearity probe (on the range of the precision for intrinsic fields: the eps-regularised solves
             # amplify rounding noise in the null space, where nothing is demanded)
             Qa = imp["Q"] if imp is not None else (ref.get("Q") if ref is not None else None)
@@ -783,6 +849,10 @@ class _Recorder:
         return out
 
 
+def _call_summary(rec):
+    return [(c["gen"], sorted((a, np.asarray(v).tolist()) for a, v in c["params"].items()), tuple(c["shape"])) for c in rec.calls]
+
+
 def _recording_rng(rec):
     class RecRS(np.random.RandomState):
         def normal(self, loc=0.0, scale=1.0, size=None):
@@ -897,34 +967,65 @@ def _eval_gen(cell, res):
         res.nontrivial = False
         res.outcomes.add("construct-refused:%s" % type(e).__name__)
         return res
+    kw_run = {}
     for N in NS:
         for path in PATHS:
             where = {"N": N, "path": path}
             res.state("N=%d/%s" % (N, path))
             rec = _Recorder()
-            rng = _recording_rng(rec) if path == "rng" else None
+            rng = _recording_rng(rec) if path != "global" else None
+            # verdicts about the positional call form do not depend on the parameter form: one signature per family
+            ign_op, ign_facet = ("rng-ignored", facet) if path != "rng-pos" else (HANDOVER, "")
             try:
                 with _recording_installed(rec, allow_global=(path == "global")):
-                    out = d.sample(N, rng=rng) if path == "rng" else d.sample(N)
+                    out = d.sample(N, rng=rng) if path == "rng" else (d.sample(N, rng) if path == "rng-pos" else d.sample(N))
             except UnownedRandomness as e:
-                if path == "rng":
-                    agg.add(fam, "rng-ignored", facet, where, "a draw went around the rng that was passed: %s" % e)
+                if path != "global":
+                    agg.add(fam, ign_op, ign_facet, where, "a draw went around the rng that was passed%s: %s"
+                            % (" as positional second argument" if path == "rng-pos" else "", e))
                     continue
                 raise
             except HarnessError:
                 raise
             except Exception as e:
                 res.transitions += 1
+                if path == "rng-pos":
+                    # refusing the positional form (TypeError) is allowed; any other crash while the keyword form draws is not
+                    res.refused += 1
+                    res.outcomes.add("positional-refused:%s" % type(e).__name__)
+                    if N in kw_run and not isinstance(e, (TypeError, NotImplementedError)):
+                        agg.add(fam, "sample-raises", "", where, "sample(%d, rng) raised %r although sample(%d, rng=rng) draws" % (N, e, N))
+                    continue
                 agg.add(fam, "sample-raises", facet, where, "sample(%d) raised %r" % (N, e))
                 continue
             res.transitions += 1
+            foreign = path != "global" and any(c["random_state"] is not rng for c in rec.calls)
+            if path == "rng-pos":
+                if foreign:
+                    agg.add(fam, HANDOVER, "", where, "the generator call did not receive the rng that was passed as positional "
+                            "second argument (random_state=%r)" % (rec.calls[0]["random_state"],))
+                    continue
+                if N not in kw_run:
+                    res.count("positional-discipline-only")      # the keyword form gave no usable draw to compare with
+                    continue
             prob = _wrap_problem(out, N, d)
             if prob:
-                agg.add(fam, "sample-shape", facet, where, prob)
+                agg.add(fam, "sample-shape" if path != "rng-pos" else HANDOVER, facet if path != "rng-pos" else "", where, prob)
                 continue
-            if path == "rng" and any(c["random_state"] is not rng for c in rec.calls):
+            if foreign:
                 agg.add(fam, "rng-ignored", facet, where, "the generator call did not receive the rng that was passed "
                         "(random_state=%r)" % (rec.calls[0]["random_state"],))
+                continue
+            if path == "rng-pos":
+                # same generator, same state -> the very same generator calls and the very same draws as sample(N, rng=rng)
+                res.evaluations += 1
+                calls_kw, M_kw = kw_run[N]
+                calls = _call_summary(rec)
+                if calls != calls_kw or not np.array_equal(_matrix(out, N, dim), M_kw):
+                    agg.add(fam, HANDOVER, "", where, "sample(N, rng) and sample(N, rng=rng) differ for the same generator: "
+                            "calls %s vs %s" % (calls, calls_kw), positional=_matrix(out, N, dim), keyword=M_kw)
+                else:
+                    res.outcomes.add("%s:positional==keyword:N=%d" % (fam, N))
                 continue
             if not rec.calls:
                 agg.add(fam, "no-generator-call", facet, where, "sample() returned without asking any generator")
@@ -996,6 +1097,8 @@ def _eval_gen(cell, res):
                     ok_all = False
                     break
             res.traces += 1
+            if path == "rng":
+                kw_run[N] = (_call_summary(rec), M.copy())
             if ok_all:
                 res.outcomes.add("%s:%s:%s:N=%d" % (fam, pform, rec.calls[0]["shape"], N))
             if res.sample is None:
@@ -1042,13 +1145,15 @@ def _mhn_alphabet(kind, big):
 def _eval_mhn(cell, res):
     import cuqi
     mode, al, be, ga = cell["mode"], cell["alpha"], cell["beta"], cell["gamma"]
-    agg = _Agg({"path": PATHS})
+    # the private sampler has no positional generator slot (its fourth positional argument is the mode m)
+    paths = PATHS if mode == "public" else tuple(p for p in PATHS if p != "rng-pos")
+    agg = _Agg({"path": paths})
     d = cuqi.distribution.ModifiedHalfNormal(al, be, ga)
     if mode == "internal":
         def target(x):            # documented un-normalised MHN density of the parameters handed to the sampler
             return (al - 1) * np.log(x) - be * x * x + ga * x
 
-        def call(rng):
+        def call(rng, positional=False):
             return d._MHN_sample(al, be, ga, rng=rng)
         branch = "gamma<=0" if ga <= 0 else ("alpha>1" if al > 1 else "alpha<=1")
         facet = "internal,%s" % branch
@@ -1056,14 +1161,14 @@ def _eval_mhn(cell, res):
         def target(x):
             return _f(d.logpdf(np.array([x])))
 
-        def call(rng):
-            out = d.sample(1, rng=rng) if rng is not None else d.sample(1)
+        def call(rng, positional=False):
+            out = (d.sample(1, rng) if positional else d.sample(1, rng=rng)) if rng is not None else d.sample(1)
             p = _wrap_problem(out, 1, d)
             if p:
                 raise _WrapViolation(p)      # a verdict about the library (wrong wrapping of the draw), not a harness error
             return _f(out)
         facet = "public"
-    for path in PATHS:
+    for path in paths:
         where = {"path": path}
         res.state(path)
         try:
@@ -1078,22 +1183,37 @@ def _eval_mhn(cell, res):
     return res
 
 
+def _canon_log(boxes):
+    """Request logs of executions in a comparable form."""
+    def canon(v):
+        if isinstance(v, dict):
+            return sorted((str(k), canon(x)) for k, x in v.items())
+        if isinstance(v, (list, tuple)):
+            return [canon(x) for x in v]
+        if isinstance(v, np.ndarray) or isinstance(v, (float, int, np.floating, np.integer)):
+            return np.asarray(v, dtype=float).tolist()
+        return str(v)
+    return [canon(lg) for lg in boxes]
+
+
 def _mhn_path(res, agg, cell, path, where, facet, call, target, mode):
     al, be, ga = cell["alpha"], cell["beta"], cell["gamma"]
     if True:
 
-        def execute(base, decisions, kindbox):
+        def execute(base, decisions, kindbox, how=None):
             """one execution: first proposal answered by ``base`` (gamma: the value; normal: the standard score)."""
+            how = how or path
+
             def first_only(rec_or_n, i):
                 if i >= 1:
                     raise _Stop()
                 return base
             s = Stream(normal=(lambda n, i: first_only(n, i)), gamma=(lambda rec, i: first_only(rec, i)), decisions=decisions)
             try:
-                if path == "rng":
+                if how in ("rng", "rng-pos"):
                     guard = Stream()
                     with guard.installed():
-                        x = call(s.rng())
+                        x = call(s.rng(), how == "rng-pos")
                 else:
                     with s.installed():
                         x = call(None)
@@ -1112,7 +1232,11 @@ def _mhn_path(res, agg, cell, path, where, facet, call, target, mode):
         try:
             execute(1.0, Decisions([True]), box)
         except UnownedRandomness as e:
-            agg.add("ModifiedHalfNormal", "rng-ignored", facet, where, str(e))
+            if path == "rng-pos":
+                agg.add("ModifiedHalfNormal", HANDOVER, "", where, "a generator passed as positional second argument of "
+                        "sample() is not the source of the draws: %s" % e)
+            else:
+                agg.add("ModifiedHalfNormal", "rng-ignored", facet, where, str(e))
             return
         first = box[0][0]
         kind = first["kind"]
@@ -1131,6 +1255,27 @@ def _mhn_path(res, agg, cell, path, where, facet, call, target, mode):
             raise HarnessError("unexpected first request %r" % first)
         res.count("proposal:" + kind)
         fct = facet + ",proposal=" + kind
+        if path == "rng-pos":
+            # positional hand-over: over the whole proposal alphabet, accept branch forced, the same generator answers
+            # give the same requests and the same value as sample(1, rng=rng); the rejection law itself was decided
+            # on the keyword path
+            for b in bases:
+                lp, lk = [], []
+                try:
+                    op = execute(b, Decisions([True]), lp, "rng-pos")
+                    ok = execute(b, Decisions([True]), lk, "rng")
+                except UnownedRandomness as e:
+                    agg.add("ModifiedHalfNormal", HANDOVER, "", where, "positional generator bypassed: %s" % e)
+                    return
+                res.transitions += 2
+                res.evaluations += 1
+                if op != ok or _canon_log(lp) != _canon_log(lk):
+                    agg.add("ModifiedHalfNormal", HANDOVER, "", where, "sample(1, rng) and sample(1, rng=rng) differ for the "
+                            "same generator answers (first proposal %r): %r vs %r" % (b, op, ok))
+                    return
+            res.traces += 1
+            res.outcomes.add("%s:positional==keyword" % fct)
+            return
         Ls, info = [], []
         for b in bases:
             boxes = []
@@ -1290,10 +1435,101 @@ def _raw(out, N):
     return np.array(np.asarray(out if N == 1 else out.samples), dtype=float, copy=True)
 
 
+def _call_form(d, form, N, r):
+    if form == "rng":
+        return d.sample(N, rng=r)
+    if form == "rng-pos":
+        return d.sample(N, r)
+    if form == "rng-Nkw":
+        return d.sample(N=N, rng=r)
+    if form == "rng-noN":
+        if N != 1:
+            raise HarnessError("sample(rng=r) draws once")
+        return d.sample(rng=r)
+    raise HarnessError(form)
+
+
+def _rng_state(r):
+    if isinstance(r, np.random.RandomState):
+        st = r.get_state()
+        return (st[0], st[1].tobytes()) + tuple(st[2:])
+    return repr(r.bit_generator.state)
+
+
+def _global_state():
+    st = np.random.get_state()
+    return (st[0], st[1].tobytes()) + tuple(st[2:])
+
+
+def _same_draws(o1, o2, N):
+    """type, shape and every value identical"""
+    if type(o1) is not type(o2):
+        return False
+    try:
+        a1, a2 = _raw(o1, N), _raw(o2, N)
+    except Exception:
+        return False
+    return a1.shape == a2.shape and np.array_equal(a1, a2, equal_nan=True)
+
+
+def _forms_probe(res, agg, fam, d, N, kind, seed, where, o1, s1, reset=None):
+    """Real generator of ``kind`` in the state ``seed``; o1 = d.sample(N, rng=r) left r in state s1.  Every other call form
+    must be the same function of the generator: identical draws from an equal state, generator left in the identical state,
+    equal states -> equal draws, global numpy stream untouched.  Refusing a call form (TypeError) is allowed.
+    -> the set of call forms that did not pass."""
+    failed = set()
+    for form in DIFFERENTIAL_FORMS:
+        if form == "rng-noN" and N != 1:
+            continue
+        w = dict(where, path=form)
+        if form == "rng-noN":
+            w.pop("N", None)            # exists for one N only: must not make a signature look N-specific
+        res.state("N=%d/%s/%s" % (N, kind, form))
+        r = _mk_rng(kind, seed)
+        np.random.seed(4242)
+        g0 = _global_state()
+        try:
+            if reset:
+                reset()
+            p1 = _call_form(d, form, N, r)
+            g1 = _global_state()
+            sp = _rng_state(r)
+            if reset:
+                reset()
+            p2 = _call_form(d, form, N, _mk_rng(kind, seed))
+        except HarnessError:
+            raise
+        except Exception as e:
+            res.refused += 1
+            res.transitions += 1
+            res.outcomes.add("form-refused:%s:%s" % (form, type(e).__name__))
+            if not isinstance(e, (TypeError, NotImplementedError)):
+                agg.add(fam, "sample-raises", "", w, "%s raised %r although sample(N, rng=r) draws" % (FORM_TEXT[form], e))
+            failed.add(form)
+            continue
+        res.transitions += 2
+        res.evaluations += 4
+        problems = []
+        if g1 != g0:
+            problems.append("the global numpy generator advanced")
+        if not _same_draws(p1, o1, N):
+            problems.append("the draws differ from those of sample(N, rng=r) for an equal generator state")
+        if not _same_draws(p1, p2, N):
+            problems.append("two generators in the same state gave different draws")
+        if sp != s1:
+            problems.append("the generator is left in another state than by sample(N, rng=r)")
+        if problems:
+            agg.add(fam, HANDOVER, "", w, "%s: %s" % (FORM_TEXT[form], "; ".join(problems)))
+            failed.add(form)
+        else:
+            res.outcomes.add("%s==keyword:%s:N=%d" % (form, kind, N))
+    return failed
+
+
 def _eval_disc(cell, res):
     specs = _disc_specs()
     fam, facet, mk = specs[cell["spec"]]
-    agg = _Agg({"N": NS, "rng": RNG_KINDS})
+    agg = _Agg({"N": NS, "rng": RNG_KINDS, "path": CALL_FORMS})
     try:
         d = mk()
     except Exception as e:
@@ -1311,9 +1547,12 @@ def _eval_disc(cell, res):
             res.state("N=%d/%s" % (N, kind))
             np.random.seed(4242)
             g0 = np.random.get_state()
+            r1 = _mk_rng(kind, seed)
+            s0 = _rng_state(r1)
             try:
-                o1 = d.sample(N, rng=_mk_rng(kind, seed))
+                o1 = d.sample(N, rng=r1)
                 g1 = np.random.get_state()
+                s1 = _rng_state(r1)
                 o2 = d.sample(N, rng=_mk_rng(kind, seed))
                 o3 = d.sample(N, rng=_mk_rng(kind, seed + 1))
             except Exception as e:
@@ -1345,9 +1584,15 @@ def _eval_disc(cell, res):
                 cols = a1.reshape(-1, N)
                 if any(np.array_equal(cols[:, 0], cols[:, j]) for j in range(1, N)):
                     agg.add(fam, "repeated-columns", facet, where, "two of the N draws are identical")
+            res.evaluations += 1
+            if s1 == s0:
+                agg.add(fam, "rng-not-advanced", facet, where, "sample(N, rng=r) returned draws but left the generator r in the "
+                        "state it was given in")
+            _forms_probe(res, agg, fam, d, N, kind, seed, where, o1, s1)
     res.traces += 1
     if res.sample is None:
-        res.sample = {"spec": cell["spec"], "family": fam, "facet": facet, "N": list(NS), "rng_kinds": list(RNG_KINDS)}
+        res.sample = {"spec": cell["spec"], "family": fam, "facet": facet, "N": list(NS), "rng_kinds": list(RNG_KINDS),
+                      "call_forms": [FORM_TEXT[f] for f in CALL_FORMS]}
     agg.emit(res)
     return res
 
@@ -1363,6 +1608,8 @@ def _cond_makers():
         "Gaussian/prec=callable": ("Gaussian", lambda: D.Gaussian(np.zeros(2), prec=lambda s: s), {"s": 2.0}),
         "Gaussian/sqrtprec=callable": ("Gaussian", lambda: D.Gaussian(np.zeros(2), sqrtprec=lambda s: s), {"s": 2.0}),
         "Gaussian/two": ("Gaussian", lambda: D.Gaussian(lambda z: z * one, cov=lambda s: s), {"z": 1.0, "s": 2.0}),
+        "Gaussian/two,geometry": ("Gaussian", lambda: D.Gaussian(lambda z: z * one, cov=lambda s: s, geometry=2), {"z": 1.0, "s": 2.0}),
+        "Normal/two": ("Normal", lambda: D.Normal(lambda m: m, lambda s: s), {"m": 0.5, "s": 2.0}),
         "GMRF/prec=callable": ("GMRF", lambda: D.GMRF(np.zeros(4), lambda dlt: dlt, geometry=4), {"dlt": 2.0}),
         "GMRF/prec=None": ("GMRF", lambda: D.GMRF(np.zeros(4), None, geometry=4), {"prec": 2.0}),
         "Lognormal/mean=None": ("Lognormal", lambda: D.Lognormal(None, 1.0, geometry=2), {"mean": one}),
@@ -1433,6 +1680,175 @@ def _eval_cond(cell, res):
     return res
 
 
+# ---- objects derived from other objects: conditioning calls, joint distributions, user-defined samplers ---------------
+GALLERY_OTHER = ("CalSom91", "funnel", "mixture", "squiggle", "donut", "banana")
+
+
+def _derived_specs():
+    """name -> (family, facet, build); build() -> dict(obj, twins=[(route, object that must draw identically)], reset, uses_rng)"""
+    import cuqi
+    D = cuqi.distribution
+    specs = {}
+    for name, (fam, mk, full) in _cond_makers().items():
+        def build(mk=mk, full=full):
+            d = mk()
+            keys = list(full)
+            twins = [("conditioned-again", d(**full))]
+            if len(keys) > 1:                # one variable at a time, every order
+                for perm in itertools.permutations(keys):
+                    t = d
+                    for a in perm:
+                        t = t(**{a: full[a]})
+                    twins.append(("one-at-a-time:" + ">".join(perm), t))
+            return {"obj": d(**full), "twins": twins}
+        specs["cond:" + name] = (fam, "conditioned," + name.split("/", 1)[1], build)
+
+    v2 = np.array([0.5, -1.25])
+    c2 = np.array([1.0, 0.5])
+
+    def joint2():
+        x = D.Gaussian(np.zeros(2), 1.5, geometry=2, name="x")
+        y = D.Gaussian(lambda x: 2 * x, c2, geometry=2, name="y")
+        return x, y, D.JointDistribution(x, y)
+
+    def b_member():
+        x, y, J = joint2()
+        return {"obj": J.get_density("x"), "twins": [("stand-alone", D.Gaussian(np.zeros(2), 1.5, geometry=2))]}
+
+    def b_reduced():
+        x, y, J = joint2()
+        return {"obj": J(x=v2), "twins": [("member-conditioned", J.get_density("y")(x=v2)),
+                                          ("stand-alone", D.Gaussian(2 * v2, c2, geometry=2))]}
+    specs["joint:member"] = ("Gaussian", "joint-member", b_member)
+    specs["joint:reduced"] = ("Gaussian", "joint-reduced", b_reduced)
+
+    def hier():
+        sd = D.Gamma(2.0, 1.0, name="s")
+        x = D.Gaussian(np.zeros(3), cov=lambda s: 1.0 / s, geometry=3, name="x")
+        return sd, x, D.JointDistribution(sd, x)
+
+    def b_hier_x():
+        sd, x, J = hier()
+        return {"obj": J(s=2.0), "twins": [("member-conditioned", x(s=2.0)), ("stand-alone", D.Gaussian(np.zeros(3), cov=0.5, geometry=3))]}
+
+    def b_hier_s():             # conditioning on the data leaves a posterior: direct sampling is refused (allowed)
+        sd, x, J = hier()
+        return {"obj": J(x=np.ones(3)), "twins": []}
+
+    def b_hier_member():
+        sd, x, J = hier()
+        return {"obj": J.get_density("s"), "twins": [("stand-alone", D.Gamma(2.0, 1.0))]}
+    specs["joint:hier-x"] = ("Gaussian", "joint-reduced", b_hier_x)
+    specs["joint:hier-s"] = ("Posterior", "joint-reduced", b_hier_s)
+    specs["joint:hier-member"] = ("Gamma", "joint-member", b_hier_member)
+
+    def b_logn_member():
+        z = D.Lognormal(np.array([0.25, -0.5]), np.array([[1.0, 0.25], [0.25, 0.5]]), name="z")
+        w = D.Gaussian(lambda z: z, 1.0, geometry=2, name="w")
+        J = D.JointDistribution(z, w)
+        return {"obj": J.get_density("z"), "twins": [("stand-alone", D.Lognormal(np.array([0.25, -0.5]), np.array([[1.0, 0.25], [0.25, 0.5]])))]}
+    specs["joint:lognormal-member"] = ("Lognormal", "joint-member", b_logn_member)
+
+    def b_udd():
+        # the API hands no generator to sample_func: the user's callable is the only source of the draws, whatever the call form
+        box = [0]
+
+        def sample_func():
+            box[0] += 1
+            return np.array([box[0] + 0.25, -0.5 * box[0]])
+
+        def reset():
+            box[0] = 0
+        u = D.UserDefinedDistribution(dim=2, logpdf_func=lambda x: -0.5 * float(np.sum(np.square(x))), sample_func=sample_func)
+        return {"obj": u, "twins": [], "reset": reset, "uses_rng": False}
+    specs["udd:scripted"] = ("UserDefinedDistribution", "sample_func=scripted", b_udd)
+    for nm in GALLERY_OTHER:     # density-only gallery members: sampling is refused (allowed) in every call form
+        specs["gallery:" + nm] = ("DistributionGallery", "name=" + nm, lambda nm=nm: {"obj": D.DistributionGallery(nm), "twins": []})
+    return specs
+
+
+def _eval_derived(cell, res):
+    fam, facet, build = _derived_specs()[cell["spec"]]
+    agg = _Agg({"N": NS, "rng": RNG_KINDS, "path": CALL_FORMS})
+    try:
+        built = build()
+    except Exception as e:
+        res.refused += 1
+        res.transitions += 1
+        res.nontrivial = False
+        res.outcomes.add("construct-refused:%s" % type(e).__name__)
+        return res
+    d, twins, reset, uses_rng = built["obj"], built.get("twins", []), built.get("reset"), built.get("uses_rng", True)
+    seed = 23 + cell["cat"]
+    drew = False
+    for N in NS:
+        for kind in RNG_KINDS:
+            where = {"N": N, "rng": kind}
+            res.state("N=%d/%s" % (N, kind))
+            np.random.seed(4242)
+            g0 = _global_state()
+            r1 = _mk_rng(kind, seed)
+            s0 = _rng_state(r1)
+            try:
+                if reset:
+                    reset()
+                o1 = d.sample(N, rng=r1)
+                g1 = _global_state()
+                s1 = _rng_state(r1)
+                if reset:
+                    reset()
+                o2 = d.sample(N, rng=_mk_rng(kind, seed))
+            except Exception as e:
+                # a derived object may refuse direct sampling (posterior, density-only gallery member, generator type)
+                res.refused += 1
+                res.transitions += 1
+                res.outcomes.add("refused:%s:%s" % (kind, type(e).__name__))
+                agg.skip(where)
+                continue
+            drew = True
+            res.transitions += 2
+            res.evaluations += 3
+            if g1 != g0:
+                agg.add(fam, "global-state-moved", facet, where, "the global numpy generator advanced although an rng was passed")
+            if not _same_draws(o1, o2, N):
+                agg.add(fam, "not-deterministic", facet, where, "two generators in the same state gave different draws")
+            if uses_rng and s1 == s0:
+                agg.add(fam, "rng-not-advanced", facet, where, "sample(N, rng=r) returned draws but left the generator r in the "
+                        "state it was given in")
+            prob = _wrap_problem(o1, N, d)
+            if prob:
+                agg.add(fam, "sample-shape", facet, where, prob)
+            failed = _forms_probe(res, agg, fam, d, N, kind, seed, where, o1, s1, reset=reset)
+            # the same distribution reached by another route draws identically from an equal generator state
+            for route, t in twins:
+                for form in ("rng", "rng-pos"):
+                    if form in failed:
+                        continue        # this call form is already reported for the reference object itself
+                    res.transitions += 1
+                    res.evaluations += 1
+                    try:
+                        p = _call_form(t, form, N, _mk_rng(kind, seed))
+                    except Exception as e:
+                        agg.add(fam, "derived-route", facet + ",route=" + route.split(":")[0], dict(where, path=form),
+                                "%s of the object reached by '%s' raised %r; the reference object draws" % (FORM_TEXT[form], route, e))
+                        continue
+                    if not _same_draws(p, o1, N):
+                        agg.add(fam, "derived-route", facet + ",route=" + route.split(":")[0], dict(where, path=form),
+                                "the object reached by '%s' and the reference object give different draws from generators in "
+                                "the same state" % route)
+                    else:
+                        res.outcomes.add("route:%s:%s" % (route, form))
+    res.traces += 1
+    if not drew:
+        res.count("derived-object-refuses-sampling")
+        res.nontrivial = False
+    if res.sample is None:
+        res.sample = {"spec": cell["spec"], "family": fam, "facet": facet, "routes": [r for r, _ in twins],
+                      "call_forms": [FORM_TEXT[f] for f in CALL_FORMS], "sampled": drew}
+    agg.emit(res)
+    return res
+
+
 # =========================================================================================
 # module contract
 # =========================================================================================
@@ -1464,6 +1880,8 @@ def cells(tier, seed):
         out.append({"kind": "disc", "spec": name, "cat": k0})
     for name in _COND_NAMES:
         out.append({"kind": "cond", "spec": name, "cat": k0})
+    for name in _derived_spec_names():
+        out.append({"kind": "derived", "spec": name, "cat": k0})
     # long cells first so that the pool is balanced
     out.sort(key=lambda c: -(c.get("dim", 0) if c["kind"] == "gauss" else (c.get("n", 0) if c.get("n", 0) > 9 else 0)))
     from checks import _reassign
@@ -1475,13 +1893,17 @@ def _disc_spec_names():
     return list(_disc_specs().keys())
 
 
+def _derived_spec_names():
+    return list(_derived_specs().keys())
+
+
 _COND_NAMES = ["Gaussian/mean=None", "Gaussian/mean=callable", "Gaussian/cov=callable", "Gaussian/prec=callable",
-               "Gaussian/sqrtprec=callable", "Gaussian/two", "GMRF/prec=callable", "GMRF/prec=None", "Lognormal/mean=None",
+               "Gaussian/sqrtprec=callable", "Gaussian/two", "Gaussian/two,geometry", "Normal/two", "GMRF/prec=callable", "GMRF/prec=None", "Lognormal/mean=None",
                "Normal/mean=None", "Normal/std=callable", "Gamma/shape=callable", "Gamma/rate=None", "Laplace/location=None",
                "Uniform/low=None", "Beta/alpha=None", "InverseGamma/shape=None", "Cauchy/location=None", "Cauchy/scale=callable"]
 
 _DISPATCH = {"gauss": _eval_gauss, "lognormal": _eval_lognormal, "gallery": _eval_gallery, "gmrf": _eval_gmrf,
-             "gen": _eval_gen, "mhn": _eval_mhn, "disc": _eval_disc, "cond": _eval_cond}
+             "gen": _eval_gen, "mhn": _eval_mhn, "disc": _eval_disc, "cond": _eval_cond, "derived": _eval_derived}
 
 
 def _reassign_observe(obj, pts):
